@@ -179,6 +179,9 @@ var roleFinders = map[string]func(fn *ssa.Function) bool{
 	"(*TypeConverter).Imports": func(fn *ssa.Function) bool {
 		return recvIs(fn, "TypeConverter") && fn.Signature.Params().Len() == 0 && fn.Signature.Results().Len() == 1 && strings.HasSuffix(fn.Signature.Results().At(0).Type().String(), "[]"+migPkg+".ImportSpec")
 	},
+	"(*Processor).ProcessFiles": func(fn *ssa.Function) bool {
+		return recvIs(fn, "Processor") && sig(fn) == "func(files []string) error" || (recvIs(fn, "Processor") && fn.Signature.Params().Len() == 1 && fn.Signature.Params().At(0).Type().String() == "[]string" && fn.Signature.Results().Len() == 1)
+	},
 }
 
 // resolveRole looks a function up by its pinned name, then by its role.
